@@ -15,18 +15,30 @@
       (Random exploration of `Model.PipelineN`, 2 partitions sharing 2 workers, M = 0..3, 20 000 runs: LogOrder holds
       for every partition in every run.)
     * `log_order_every_partition` - PROVED from `ProjSim`: for every partition, LogOrder.
-  Partial results towards `ProjSim` (all PROVED, each a single-step projection; they are not yet assembled along a run):
+  Partial results towards `ProjSim` (all PROVED, each a SINGLE-STEP projection; they are not yet assembled along a run):
     * Props/C02multiW.lean - worker level: `recv_proj_own`, `recv_proj_foreign` (stutter up to `stale`),
       `handover_proj`, `handover_hidden` (the hidden sets).
-    * Props/C02multiS.lean - `WRel` (QRel + current worker + every worker's input projected by filtering + a relation
-      on the inner states), `proj_ppRecv_other` (no step), `proj_ppRecv_own` (the same `ppRecv`).
-    * Props/C02multiR.lean - `proj_bpRecv_own`: a worker takes a token of `p` = the `bpRecv` step of the projection
-      (inner state `projB`, same outcomes).
-  MISSING for `ProjSim`: the system-level step for a foreign token (a congruence of `BrokerProd.step` under "equal up
-  to `stale`"), hand-over / broker / deliver with hidden sets and pending answers, the answer step (`resp`: the two
-  passes of handleSuccess with several partitions in the set), the decidable side condition on the run (the projected
-  run satisfies `splitOKs`; no message of `p` held while a foreign set is handed over or answered; no foreign
-  connection error while `p`'s syn is in flight), and the induction along the run.
+    * Props/C02multiS.lean - `WRel BR` (QRel + current worker + every worker's input projected by filtering + a relation
+      `BR` on the inner states), `proj_ppRecv_other` (no step), `proj_ppRecv_own` (the same `ppRecv`); any `BR` that
+      looks at the inner state only.
+    * Props/C02multiR.lean, C02multiF.lean - `bpRecv`: `recv_stale` (taking a token does not read `stale`),
+      `proj_bpRecv_foreign` (a token of another partition: no step) and `proj_bpRecv_own_s` (a token of `p`: the
+      `bpRecv` step, same outcomes), for `BRs` = inner state is `projB p` up to `stale`, no pending answer
+      (`proj_bpRecv_own`: the same for exact equality `BRx`).
+    * Props/C02multiH.lean - `handover`: `proj_handover_hidden` (the set holds nothing of `p`, no message of `p` held:
+      no step, the set is hidden) and `proj_handover_visible` (otherwise: the `handover` step), for `BRh` = inner states
+      related field by field, set projected or hidden, no pending answer without a set.
+    * Props/C02multiB.lean - `broker`: `proj_broker_log` (the log of `p` changes as in the one-partition step on the
+      projected set; nothing else of `QRel p` changes).
+  MISSING for `ProjSim`:
+    * ONE relation for all steps: `BRs` (bpRecv) and `BRh` (handover) are different instances of `BR`; the bpRecv lemmas
+      have to be redone for `BRh` (a token taken while a set - visible or hidden - is at the bridge), and `BRh` needs
+      the relation of the pending answers (verdict of `p`, base offset of `p`) to carry `broker` through `WRel`;
+    * `deliver`: the answer step of the worker with several partitions in the set (the two passes of handleSuccess,
+      request-level errors, the re-check of a held message), for visible and for hidden sets;
+    * the decidable side condition on the run (`projOK p cs`: the projected run satisfies `splitOKs`; no message of `p`
+      is held while a foreign set is handed over or answered; no foreign connection error while `p`'s syn is in
+      flight) and the induction along the run.
 -/
 import SaramaVerif.Model.PipelineN
 import SaramaVerif.Props.C02split
